@@ -100,7 +100,13 @@ def substrings(s):
 
 
 def gen_scanner(rng):
-    s = "".join(rng.choice(ALPHA) for _ in range(rng.randrange(1, 11)))
+    if rng.random() < 0.4:
+        # a would-be placeholder whose name contains one white-space character or one of its neighbours: whether it IS a
+        # placeholder depends on exactly that character
+        c = chr(rng.choice(WS + NEAR))
+        s = rng.choice(["", "x", "<"]) + "<" + rng.choice(["", "a", "é"]) + c + rng.choice(["", "b"]) + ">" + rng.choice(["", "y", ">"])
+    else:
+        s = "".join(rng.choice(ALPHA) for _ in range(rng.randrange(1, 11)))
     cols = substrings(s)
     rng.shuffle(cols)
     header = cols
